@@ -6,12 +6,21 @@ CONSTANTS
   SdFields <- MCSdFields
   SuFields <- MCSuFields
   MaxLen = 2
-  Shapes <- MCShapes
+  Shapes <- MCShapesFour
   Targets <- MCTargets
   EmptyDiffShapes <- MCEmptyDiffShapes
   ClassShapes <- MCClassShapes
   DeployShapes <- MCDeployShapes
   CasmV2From = 4
+  ClassFields <- MCNone
+  TxClassFields <- MCTxClassFields
+  ClassOf <- MCClassOf
+  ValidClassOf <- MCValidClassOf
+  ClassIn <- MCClassIn
+  ShapeClass <- MCShapeClass
+  ProtoSame <- MCProtoSame
+  MalformedRefused = TRUE
+  ZeroAsAbsent <- MCNone
   MaxPending = 1
   SuccessionChecked = TRUE
   RootChecked = TRUE
